@@ -101,7 +101,7 @@ theorem applyLocalFieldFilter_hom (env : Env) (comp : Component) (vid : Vid) (f 
     Hom (applyLocalFieldFilter env comp vid f) := by
   unfold applyLocalFieldFilter
   split
-  · exact (applyFilter_hom env comp vid f).comp_pure _ (by intro xs ys; simp [computeLocalField])
+  · exact Hom.guard _ fun t => Hom.bind (mapR_hom _) (applyFilter_hom env comp vid f)
   · exact Hom.const_fail _ rfl
 
 theorem applyLocalFilters_hom (env : Env) (comp : Component) (vid : Vid) (fs : List IRFilter) :
@@ -110,11 +110,16 @@ theorem applyLocalFilters_hom (env : Env) (comp : Component) (vid : Vid) (fs : L
   | nil => exact pure_hom id (by simp)
   | cons f fs ih => exact (applyLocalFieldFilter_hom env comp vid f).bind ih
 
+theorem coerceIfNeeded_hom (env : Env) (v : IRVertex) : Hom (coerceIfNeeded env v) := by
+  unfold coerceIfNeeded
+  split
+  · exact pure_hom id (by simp)
+  · exact filterMapR_hom _
+
 theorem enterVertex_hom (env : Env) (comp : Component) (v : IRVertex) :
-    Hom (enterVertex env comp v) := by
-  refine Hom.bind ?_ (mapR_hom _)
-  exact (applyLocalFilters_hom env comp v.vid v.filters).comp_pure _
-    (by intro xs ys; unfold coerceIfNeeded; split <;> simp)
+    Hom (enterVertex env comp v) :=
+  Hom.bind (coerceIfNeeded_hom env v)
+    (Hom.bind (applyLocalFilters_hom env comp v.vid v.filters) (mapR_hom _))
 
 theorem unpackList_append (xs ys : List PCtx) :
     unpackList (xs ++ ys) = unpackList xs ++ unpackList ys := by
@@ -122,20 +127,29 @@ theorem unpackList_append (xs ys : List PCtx) :
   | nil => simp [unpackList]
   | cons x xs ih => simp [unpackList, ih]
 
-theorem recLevels_append (env : Env) (e : IREdge) (ct : Option Name) (k : Nat) (xs ys : List PCtx) :
-    recLevels env e ct k (xs ++ ys) = recLevels env e ct k xs ++ recLevels env e ct k ys := by
-  induction k generalizing xs ys with
-  | zero => simp [recLevels]
+theorem recLevels_hom (env : Env) (e : IREdge) (et rf : Name) (ct : Option Name) (k : Nat) :
+    Hom (recLevels env e et rf ct k) := by
+  induction k with
+  | zero => exact pure_hom id (by simp)
   | succ k ih =>
-    simp only [recLevels]
-    cases ct <;> simp [recExpandLevel, recCoerceLevel, ih]
-
-theorem expandRecursive_hom (env : Env) (e : IREdge) (r : Recursive) :
-    Hom (expandRecursive env e r) := by
-  refine Hom.bind (mapR_hom _) ?_
-  exact (mapR_hom _).comp_pure _ (by
     intro xs ys
-    simp [recExpandLevel, recLevels_append, unpackList_append])
+    simp only [recLevels]
+    cases ct with
+    | none =>
+      simp only [R.bind_ok]
+      exact (Hom.bind (flatMapR_hom _) ih) xs ys
+    | some t =>
+      exact (Hom.bind (mapR_hom _) (Hom.bind (flatMapR_hom _) ih)) xs ys
+
+theorem recFinish_hom (env : Env) (e : IREdge) (r : Recursive) (fromV toV : IRVertex) :
+    Hom (recFinish env e r fromV toV) := by
+  unfold recFinish
+  refine Hom.bind ((flatMapR_hom _).comp_pure _ (by simp)) (Hom.bind (recLevels_hom env e _ _ _ _) ?_)
+  exact (mapR_hom _).comp_pure _ unpackList_append
+
+theorem expandRecursive_hom (env : Env) (e : IREdge) (r : Recursive) (fromV toV : IRVertex) :
+    Hom (expandRecursive env e r fromV toV) :=
+  Hom.bind (mapR_hom _) (recFinish_hom env e r fromV toV)
 
 theorem expandEdge_hom (env : Env) (comp : Component) (e : IREdge) : Hom (expandEdge env comp e) := by
   unfold expandEdge
@@ -143,7 +157,7 @@ theorem expandEdge_hom (env : Env) (comp : Component) (e : IREdge) : Hom (expand
   · refine Hom.bind ?_ (enterVertex_hom env comp _)
     cases e.recursive with
     | none => exact flatMapR_hom _
-    | some r => exact expandRecursive_hom env e r
+    | some r => exact expandRecursive_hom env e r _ _
   · exact Hom.const_fail _ rfl
 
 theorem computeFold_hom (env : Env) (fuel : Nat) (parent : Component) (fold : Fold) :
@@ -152,9 +166,9 @@ theorem computeFold_hom (env : Env) (fuel : Nat) (parent : Component) (fold : Fo
   simp only [computeFold]
   cases parent.vertex? fold.fromVid with
   | none => simp
-  | some _ =>
+  | some fromV =>
     exact (Hom.bind (mapR_hom _) (Hom.bind (mapR_hom _)
-      (Hom.guard _ fun lim => filterMapR_hom (fun c => foldOne env fuel parent fold lim c)))) xs ys
+      (Hom.guard _ fun lim => filterMapR_hom (fun c => foldOne env fuel parent fold _ lim c)))) xs ys
 
 theorem runStages_hom (env : Env) (fuel : Nat) (comp : Component) (stages : List Stage)
     (visited : List Vid) : Hom (runStages env fuel comp stages visited) := by
